@@ -96,4 +96,5 @@ Definition forward_accepts (nda : list string) (sg : list param) (npos : nat) (k
 Definition check_args (byname : bool) (c : callable) (observed : list string)
            (npos : nat) (kws : list string) (accepted : bool) : bool :=
   strl_eqb (get_non_default_args byname c) observed &&
-  Bool.eqb (forward_accepts (get_non_default_args byname c) (c_sig c) npos kws) accepted.
+  Bool.eqb (forward_accepts (get_non_default_args byname c) (c_sig c) npos kws) accepted &&
+  pos_defaults_ok false (c_sig c).      (* hypothesis of C12_forward_call_binds_named_argument, for every generated signature *)
